@@ -1,12 +1,220 @@
 (* C05 — Select follows its documented semantics: priority, filters, timeouts.
    ONLY property theorems, each closed by `exact <lemma>` and followed by Print Assumptions.
-   Model: sel/Select.v; specification: sel/SelectSpec.v; proofs: sel/SelectProofs.v. *)
-From Quiver Require Import Base.
-From Quiver Require Import sel.Select sel.SelectSpec sel.SelectProofs.
 
-(* F8: with the code as it stands (a worker's later answer REPLACES its earlier one) the await
-   protocol loses an already-delivered result *)
-Theorem C05_await_protocol_refuted :
+   Model     : sel/Select.v  — the select machine of quiver-core/src/executor.rs (handle_select,
+               handle_select_continuation, initialize_select, ensure_select_start_time,
+               process_select_sources, handle_select_timeout/process/receive, handle_receive_result,
+               scan_mailbox_for_message, call_receive_function, complete_select,
+               check_expired_timeouts, next_timeout_ms, notify_message / notify_result /
+               mark_active, the Err arm of Worker::notify_result and the awaiters loop of
+               Executor::step) for one process, re-entrant, filters as an oracle
+               `verdict_of : receive index -> message -> Truthy n | VdNil | VdErr e`; `run` folds an
+               arbitrary list of events (EStep now = one execution of the Select instruction; EMsg,
+               EResult, EFail, EActive, ELocal = arrivals between entries; the clock value of each
+               step is arbitrary).  `fix45` switches the proposed repair of F45 on.
+   Spec      : sel/SelectSpec.v — select_spec (first ready source in written order), and the
+               environment's await protocol (pending_awaits) with `merge` = the repair of F8.
+   Proofs    : sel/SelectRefine.v, sel/SelectProofs.v, sel/AwaitProofs.v; non-vacuity Examples
+               ex_select_completes, ex_timeout_fires, stale_await_witness_repaired,
+               await_protocol_witness_repaired, wf_history_inhabited.
+
+   How "ready at the moment it completes" is made precise.  The theorems speak about ENTRIES
+   (executions of the Select instruction).  An entry that completes the select yields exactly
+   select_spec of the state AT THAT ENTRY (mailbox, delivered results, start time, clock): a
+   higher-priority source that becomes ready while a lower-priority filter runs wins at the next
+   entry, the filter's verdict is dropped, its message stays.  Two things are NOT priority-ordered
+   in the code and are stated as such, not hidden: (a) the failure of an awaited process is an
+   asynchronous kill (EFail / ELocal None set the error at arrival, whatever else is ready);
+   (b) a filter that fails does so inside its own frame before the next entry, so a source that
+   became ready meanwhile cannot pre-empt it: the guarantee is that the filter was only CALLED on
+   a message for which select_spec, on the CALLING entry's state, is Fail e. *)
+From Quiver Require Import Base.
+From Quiver Require Import sel.Select sel.SelectSpec sel.SelectProofs sel.SelectRefine sel.AwaitProofs.
+
+(* select_refines_spec: from the first entry on, under ANY history of entries and arrivals, an
+   entry that completes the select (p_value None -> Some v) completes with select_spec evaluated on
+   the state at that entry, and the mailbox afterwards is the one select_spec returns *)
+Theorem C05_select_refines_spec :
+  forall (fix45 : bool) (verdict_of : nat -> msg -> verdict) (written : list source)
+         (mb0 : list msg) (aw0 : list (pid * option value)) (evs : list event) (st : proc)
+         (now : Z) (st' : proc) (v : value),
+    run fix45 verdict_of written evs (initial mb0 aw0) = Val st ->
+    step fix45 verdict_of written now st = Val st' ->
+    p_value st = None ->
+    p_value st' = Some v ->
+    exists s : sel_state,
+      p_sel st = Some s /\
+      select_spec verdict_of written (p_mailbox st) (p_awaiting st) (start_of s now) now =
+      Complete v (p_mailbox st').
+Proof. exact select_refines_spec. Qed.
+Print Assumptions C05_select_refines_spec.
+
+(* untaken_preserved_in_order: ... which is that entry's mailbox minus exactly the taken message
+   (nothing, when the select completed by a process result or a timeout), order preserved *)
+Theorem C05_untaken_preserved_in_order :
+  forall (fix45 : bool) (verdict_of : nat -> msg -> verdict) (written : list source)
+         (mb0 : list msg) (aw0 : list (pid * option value)) (evs : list event) (st : proc)
+         (now : Z) (st' : proc) (v : value),
+    run fix45 verdict_of written evs (initial mb0 aw0) = Val st ->
+    step fix45 verdict_of written now st = Val st' ->
+    p_value st = None ->
+    p_value st' = Some v ->
+    p_mailbox st' = p_mailbox st \/
+    (exists (m : msg) (l1 l2 : list msg),
+       v = VMsg m /\ p_mailbox st = l1 ++ m :: l2 /\ p_mailbox st' = l1 ++ l2).
+Proof. exact untaken_preserved_in_order. Qed.
+Print Assumptions C05_untaken_preserved_in_order.
+
+(* an entry parks the process (runnable and alive before, not runnable and alive after) only when
+   no source is ready: select_spec says Wait *)
+Theorem C05_parks_only_when_spec_waits :
+  forall (fix45 : bool) (verdict_of : nat -> msg -> verdict) (written : list source)
+         (mb0 : list msg) (aw0 : list (pid * option value)) (evs : list event) (st : proc)
+         (now : Z) (st' : proc) (s : sel_state),
+    run fix45 verdict_of written evs (initial mb0 aw0) = Val st ->
+    step fix45 verdict_of written now st = Val st' ->
+    active now st s ->
+    p_queued st' = false ->
+    p_error st' = None ->
+    select_spec verdict_of written (p_mailbox st) (p_awaiting st) (start_of s now) now = Wait.
+Proof. exact parks_only_when_spec_waits. Qed.
+Print Assumptions C05_parks_only_when_spec_waits.
+
+(* an entry fails the process with an executor error e only if the verdict it popped was that
+   filter error, or select_spec on this entry's state is Fail e (an invalid source is reached
+   before any ready one) *)
+Theorem C05_fails_only_when_spec_fails :
+  forall (fix45 : bool) (verdict_of : nat -> msg -> verdict) (written : list source)
+         (mb0 : list msg) (aw0 : list (pid * option value)) (evs : list event) (st : proc)
+         (now : Z) (st' : proc) (s : sel_state) (e : err),
+    run fix45 verdict_of written evs (initial mb0 aw0) = Val st ->
+    step fix45 verdict_of written now st = Val st' ->
+    active now st s ->
+    p_error st' = Some (PErr e) ->
+    (exists (r : nat) (m : msg), ss_receiving s = Some (r, m) /\ verdict_of r m = VdErr e) \/
+    select_spec verdict_of written (p_mailbox st) (p_awaiting st) (start_of s now) now = Fail e.
+Proof. exact fails_only_when_spec_fails. Qed.
+Print Assumptions C05_fails_only_when_spec_fails.
+
+(* ... and a filter that is going to fail is only ever called, on message m of receive source r,
+   at an entry on whose state select_spec is already Fail e: no earlier source was ready and every
+   earlier message of that source was rejected *)
+Theorem C05_failing_filter_called_only_when_spec_fails :
+  forall (fix45 : bool) (verdict_of : nat -> msg -> verdict) (written : list source)
+         (mb0 : list msg) (aw0 : list (pid * option value)) (evs : list event) (st : proc)
+         (now : Z) (st' : proc) (s s' : sel_state) (r : nat) (m : msg) (e : err),
+    run fix45 verdict_of written evs (initial mb0 aw0) = Val st ->
+    step fix45 verdict_of written now st = Val st' ->
+    active now st s ->
+    (forall (r0 : nat) (m0 : msg) (e0 : err),
+       ss_receiving s = Some (r0, m0) -> verdict_of r0 m0 <> VdErr e0) ->
+    p_error st' = None ->
+    p_value st' = None ->
+    p_queued st' = true ->
+    p_sel st' = Some s' ->
+    ss_receiving s' = Some (r, m) ->
+    verdict_of r m = VdErr e ->
+    select_spec verdict_of written (p_mailbox st) (p_awaiting st) (start_of s now) now = Fail e.
+Proof. exact failing_filter_called_only_when_spec_fails. Qed.
+Print Assumptions C05_failing_filter_called_only_when_spec_fails.
+
+(* cursor_skips_only_rejected: in every reachable state of a live select, every mailbox message
+   before the cursor of a receive source is type-incompatible with it, or the source has a filter
+   and the (pure) filter rejects it *)
+Theorem C05_cursor_skips_only_rejected :
+  forall (fix45 : bool) (verdict_of : nat -> msg -> verdict) (written : list source)
+         (mb0 : list msg) (aw0 : list (pid * option value)) (evs : list event) (st : proc)
+         (s : sel_state),
+    run fix45 verdict_of written evs (initial mb0 aw0) = Val st ->
+    p_error st = None ->
+    p_sel st = Some s ->
+    forall (r : nat) (c : list nat) (t : bool),
+      nth_recv written r = Some (c, t) ->
+      forall (j : nat) (m : msg),
+        (j < cur_get r (ss_cursors s))%nat ->
+        nth_error (p_mailbox st) j = Some m ->
+        compat c m = false \/ t = false /\ verdict_of r m = VdNil.
+Proof. exact cursor_skips_only_rejected_reach. Qed.
+Print Assumptions C05_cursor_skips_only_rejected.
+
+(* verdict_is_only_a_verdict: two filter oracles that agree on accept / reject / fail — whatever
+   non-nil values they return — give the same run (every state, hence every yielded value) ... *)
+Theorem C05_verdict_is_only_a_verdict :
+  forall (fix45 : bool) (v1 v2 : nat -> msg -> verdict) (written : list source),
+    (forall (r : nat) (m : msg), same_verdict (v1 r m) (v2 r m)) ->
+    forall (evs : list event) (st : proc), run fix45 v1 written evs st = run fix45 v2 written evs st.
+Proof. exact verdict_is_only_a_verdict. Qed.
+Print Assumptions C05_verdict_is_only_a_verdict.
+
+(* ... and the same specification *)
+Theorem C05_spec_ignores_verdict_payload :
+  forall v1 v2 : nat -> msg -> verdict,
+    (forall (r : nat) (m : msg), same_verdict (v1 r m) (v2 r m)) ->
+    forall (srcs : list source) (mb : list msg) (aw : list (pid * option value)) (start now : Z),
+      select_spec v1 srcs mb aw start now = select_spec v2 srcs mb aw start now.
+Proof. exact select_spec_same_verdict. Qed.
+Print Assumptions C05_spec_ignores_verdict_payload.
+
+(* timeout_not_early: if no clock value of the history (nor of the completing entry) is behind
+   t0, a select that completes with nil although no awaited process delivered nil has a timeout d
+   whose duration has elapsed since t0 — in particular since the select's first entry.
+   (eff_timeout d = max d 0 for every d that fits an i64; the code clamps the others to 2^63-1.) *)
+Theorem C05_timeout_not_early :
+  forall (fix45 : bool) (verdict_of : nat -> msg -> verdict) (written : list source)
+         (t0 : Z) (mb0 : list msg) (aw0 : list (pid * option value)) (evs : list event)
+         (st : proc) (now : Z) (st' : proc),
+    steps_ge t0 evs ->
+    t0 <= now ->
+    run fix45 verdict_of written evs (initial mb0 aw0) = Val st ->
+    step fix45 verdict_of written now st = Val st' ->
+    p_value st = None ->
+    p_value st' = Some VNil ->
+    (forall p : pid, aw_get p (p_awaiting st) <> Some (Some VNil)) ->
+    exists d : Z, In (SrcTimeout d) written /\ Z.min d i64_max <= now - t0 /\ eff_timeout d <= now - t0.
+Proof. exact timeout_not_early. Qed.
+Print Assumptions C05_timeout_not_early.
+
+Theorem C05_eff_timeout_in_range : forall d : Z, in_i64 d = true -> eff_timeout d = Z.max d 0.
+Proof. exact eff_timeout_in_range. Qed.
+Print Assumptions C05_eff_timeout_in_range.
+
+(* the machine is total: no history reaches one of the index panics of the code
+   (cursors[receive_idx] in handle_receive_result / call_receive_function) or a missing verdict *)
+Theorem C05_machine_never_panics :
+  forall (fix45 : bool) (verdict_of : nat -> msg -> verdict) (written : list source)
+         (mb0 : list msg) (aw0 : list (pid * option value)) (evs : list event),
+    exists st : proc, run fix45 verdict_of written evs (initial mb0 aw0) = Val st.
+Proof. exact machine_never_panics. Qed.
+Print Assumptions C05_machine_never_panics.
+
+(* ---- the environment's await protocol (finding F8, fixed in /repo 5c787ac) ---- *)
+(* the repaired code: a worker's later answer is merged into its earlier one.  For every history
+   of ProcessResults events of an initial await (distinct keys per event, every target owned by
+   one worker, every expected worker answers at least once, in ANY order and any number of times),
+   what reaches the awaiter contains, for every target, the latest answer any worker gave *)
+Theorem C05_await_protocol_delivers_all :
+  forall (owner : pid -> wid) (expected : list wid) (evs : list (wid * answer)) (targets : list pid),
+    wf_history owner expected evs -> delivers_all true expected evs targets.
+Proof. exact await_protocol_delivers_all. Qed.
+Print Assumptions C05_await_protocol_delivers_all.
+
+(* the code before the repair (responses.insert REPLACED the earlier answer): refuted by the
+   history `w1:{p1:11,p3:-}  w1:{p3:33}  w0:{p2:-}` of `! [p1, p3, p2]` — kept as the record of what
+   the repair is for; the correspondence check fails if the real code behaves like this again *)
+Theorem C05_await_protocol_refuted_before_repair :
   exists expected evs targets, ~ delivers_all false expected evs targets.
 Proof. exact await_protocol_refuted. Qed.
-Print Assumptions C05_await_protocol_refuted.
+Print Assumptions C05_await_protocol_refuted_before_repair.
+
+(* ---- finding F45: stale awaits ---- *)
+(* the code as it stands (fix45 = false): a process whose select has completed is killed by the
+   later failure of a process that select awaited: `! [p0, 0]` yields nil, then p0 fails *)
+Theorem C05_stale_await_kills_refuted : ~ completed_select_survives false.
+Proof. exact stale_await_kills_refuted. Qed.
+Print Assumptions C05_stale_await_kills_refuted.
+
+(* with the proposed repair (complete_select forgets the select's targets; a failure only reaches
+   a process that still awaits its origin) the un-negated statement holds for every history *)
+Theorem C05_completed_select_survives_repaired : completed_select_survives true.
+Proof. exact completed_select_survives_repaired. Qed.
+Print Assumptions C05_completed_select_survives_repaired.
